@@ -327,6 +327,23 @@ fn instance<B: Fld, E: FieldElement<BaseField = B>>(i: u64, rng: &mut Rng, st: &
         },
         Err(p) => st.violation(format!("panic:{}", p.sig), desc("panic", p.msg)),
     }
+    // the verifier's side of the clause: its evaluation of the same expression from the opened
+    // frame is internal to verify(); it is observed through the out-of-domain consistency check of
+    // an honest proof produced by the real prover for the same computation
+    if i % 2 == 0 {
+        let inst = stark::Instance { fd, hs: stark::Hs::Blake3_256, shape: shape.clone(), options: options.clone(), cols: cols_r.0.clone(), values: cols_r.1.clone() };
+        match stark::prove(&inst, false) {
+            stark::Proved::Ok(proof) => {
+                match stark::verify_proof(fd, stark::Hs::Blake3_256, &shape, &inst.values, proof, &winter_verifier::AcceptableOptions::MinConjecturedSecurity(0), false) {
+                    Ok(Ok(())) => st.count("verifier_side.ood_consistency_held"),
+                    Ok(Err(e)) if e.contains("out-of-domain") => st.violation(format!("{}:verifier_evaluation_disagrees_with_the_committed_composition", type_name::<B, E>()), desc("verify", e)),
+                    Ok(Err(_)) | Err(_) => st.count("verifier_side.other_outcome(see C01)"),
+                }
+                st.evals += 1;
+            },
+            _ => st.count("verifier_side.prover_did_not_produce_a_proof(see C01)"),
+        }
+    }
     st.distinct.insert(wfv::fnv(format!("{}{:?}{i}", type_name::<B, E>(), shape.encode()).as_bytes()));
     st.sample(&type_name::<B, E>(), || desc("sample", String::new()));
 }
@@ -347,16 +364,16 @@ fn main() {
         6 => instance::<B128, B128>(i, rng, st, Fd::F128, FieldExtension::None),
         _ => instance::<B128, QuadExtension<B128>>(i, rng, st, Fd::F128, FieldExtension::Quadratic),
     });
-    let mut require = vec![("one_hot.instances".to_string(), 50), ("instances.with_aux".to_string(), 20), ("instances.with_lagrange".to_string(), 5), ("instances.sequence_ge64_nonzero_first".to_string(), 3), ("instances.several_periodic_cycles".to_string(), 50), ("instances.composition_degree_multiple_of_n".to_string(), 20), ("instances.ce_blowup_lt_lde_blowup".to_string(), 50)];
+    let mut require = vec![("one_hot.instances".to_string(), 50), ("instances.with_aux".to_string(), 20), ("instances.with_lagrange".to_string(), 5), ("instances.sequence_ge64_nonzero_first".to_string(), 3), ("instances.several_periodic_cycles".to_string(), 50), ("instances.composition_degree_multiple_of_n".to_string(), 20), ("instances.ce_blowup_lt_lde_blowup".to_string(), 50), ("verifier_side.ood_consistency_held".to_string(), 500)];
     for t in ["f64", "f64^2", "f64^3", "f62", "f62^2", "f62^3", "f128", "f128^2"] {
         require.push((format!("instances.{t}"), 20));
     }
     run.finish(Finish {
-        rule: "instances of the C01 family (n = 8..256, every 4th instance with periodic columns of cycle lengths 4, n/2 and 2, sequence assertions of 32..128 values with zero and non-zero first step, periodic assertions; auxiliary segments with and without Lagrange kernel; constraint-evaluation blowup below the LDE blowup; all exemption counts the context accepts) over 8 field/extension types. Per instance: the real evaluator + CompositionPoly give sum_i x^(i n) H_i(x) at 6 random points, one LDE-domain point and one trace-coset point; the definition is evaluated from naively interpolated trace polynomials (transition terms over the transition divisor, boundary terms with interpolated assertion values over their divisors, Lagrange-kernel terms). On every third instance the coefficient-to-constraint assignment is discovered with one-hot coefficient vectors and must be a bijection within each constraint class. distinct = distinct instance".into(),
+        rule: "instances of the C01 family (n = 8..256, every 4th instance with periodic columns of cycle lengths 4, n/2 and 2, sequence assertions of 32..128 values with zero and non-zero first step, periodic assertions; auxiliary segments with and without Lagrange kernel; constraint-evaluation blowup below the LDE blowup; all exemption counts the context accepts) over 8 field/extension types. Per instance: the real evaluator + CompositionPoly give sum_i x^(i n) H_i(x) at 6 random points, one LDE-domain point and one trace-coset point; the definition is evaluated from naively interpolated trace polynomials (transition terms over the transition divisor, boundary terms with interpolated assertion values over their divisors, Lagrange-kernel terms). On every third instance the coefficient-to-constraint assignment is discovered with one-hot coefficient vectors and must be a bijection within each constraint class. On every second instance the real prover produces a proof for the same computation and the real verifier checks it: a rejection by the out-of-domain consistency check means the verifier's evaluation of the expression disagrees with the committed polynomial. distinct = distinct instance".into(),
         assumptions: vec![
             "naive interpolation uses polynom::interpolate (C20) and field operations (C07/C08)".into(),
             "boundary coefficients are assigned in the library's canonical assertion order (checked by the one-hot runs on a third of the instances)".into(),
-            "the verifier's evaluation of the same expression is pinned by acceptance of the same family in C01".into(),
+            "the verifier's evaluation is internal to verify(); it is observed through the out-of-domain consistency check (other rejections and prover failures are C01's matter and only counted here)".into(),
         ],
         exhaustive: false,
         require,
